@@ -12,7 +12,7 @@ ASSUMPTIONS = ['cartesian/argcartesian are Python-layer functions (not executabl
 
 
 def cases(rng, tier):
-    n = 1000 if tier == 'quick' else 20000
+    n = 10000 if tier == 'quick' else 200000
     out = []
     for i in range(n):
         a = G.gen_array(rng, depth=rng.choice([2, 3, 3]), canonical_too=False, type_kw=dict(allow_union=False))
